@@ -41,6 +41,13 @@ func TestMain(m *testing.M) {
 	os.Exit(vlib.Main(m, rec))
 }
 
+// known reports whether the exclusion of a known finding is active. C36_NO_EXCLUDE
+// (development only: a list of finding ids) switches exclusions off, to try a fix in a
+// scratch worktree before the entry of known_findings.json is changed to "fixed".
+func known(id string) bool {
+	return rec.Known(id) && !strings.Contains(os.Getenv("C36_NO_EXCLUDE"), id)
+}
+
 // ---------------------------------------------------------------- the case in plain form
 
 type Query struct {
@@ -424,7 +431,7 @@ func (m *model) genDecl(t *rapid.T) string {
 				if used[name] {
 					continue
 				}
-				if rec.Known("F-C36-3") {
+				if known("F-C36-3") {
 					if m.hasMethods(other) {
 						rec.Excluded("F-C36-3")
 						continue
@@ -440,7 +447,7 @@ func (m *model) genDecl(t *rapid.T) string {
 			if used[other] || m.embedDepth(other) >= 2 {
 				continue
 			}
-			if ptr && rec.Known("F-C36-2") {
+			if ptr && known("F-C36-2") {
 				rec.Excluded("F-C36-2")
 				ptr, star = false, ""
 			}
@@ -490,7 +497,7 @@ func (m *model) genDecl(t *rapid.T) string {
 			rec.Label("excluded:ambiguous-selector")
 			return ""
 		}
-		if rec.Known("F-C36-3") && m.plain[tn] {
+		if known("F-C36-3") && m.plain[tn] {
 			rec.Excluded("F-C36-3")
 			return ""
 		}
@@ -643,7 +650,7 @@ func (m *model) genQuery(t *rapid.T) *Query {
 		chainText = v + dot()
 		form := "query:var.member"
 		deeper := rapid.IntRange(0, 2).Draw(t, "deeper") == 0
-		if deeper && m.varPtr[v] && rec.Known("F-C36-1") {
+		if deeper && m.varPtr[v] && known("F-C36-1") {
 			rec.Excluded("F-C36-1")
 			deeper = false
 		}
